@@ -314,6 +314,32 @@ def check(rep, F, tier, replay=None):
     rep.floor("functions computing collateral return and total together", 2, n_co)
     from ruleutil import value_sub_total_rule
     value_sub_total_rule(rep, F)
+    # COLL-verbatim: the body lists exactly the collateral inputs the return / total were computed over
+    rep.rule("COLL-verbatim", "the `collateral` field of the TransactionBody literal in build_and_size is computed from TransactionBuilder.collateral and from nothing else of the builder, through no filtering / truncating adapter (filter, filter_map, skip, take, retain, dedup ...): collateral_return and total_collateral were gated against the value of *all* collateral inputs of the builder, so dropping one of them from the body (e.g. one that is also a regular input) breaks inputs = return + total")
+    import bodyorigins as _bo
+    ids_ = F.by_key("TransactionBuilder::build_and_size")
+    if len(ids_) != 1:
+        rep.lost("TransactionBuilder::build_and_size not found")
+    else:
+        ffs_ = ff.FnFields(F, ids_[0])
+        org_ = ff.Origins(F, ids_[0])
+        aggs_ = ffs_.aggregates_of(_bo.TBODY)
+        if len(aggs_) != 1:
+            rep.lost("expected one TransactionBody literal in build_and_size, found %d" % len(aggs_))
+        else:
+            names_ = [f["name"] for f in F.adts[_bo.TBODY]["variants"][0]["fields"]]
+            for fname_, op_ in zip(names_, aggs_[0][5]):
+                if fname_ != "collateral":
+                    continue
+                rep.inst("COLL-verbatim")
+                fields_, calls_ = _bo.field_origins(F, ids_[0], org_, op_)
+                FILT = ("::filter", "::filter_map", "::skip", "::skip_while", "::take", "::take_while", "::retain", "::retain_mut", "::dedup", "::dedup_by", "::dedup_by_key", "::step_by", "::truncate", "::pop", "::remove", "::swap_remove", "::drain", "::split_off", "::difference", "::intersection")
+                bad_ = sorted(c for c in calls_ if c.endswith(FILT))
+                if "collateral" not in fields_:
+                    rep.violation("COLL-verbatim", "collateral|source", "the body's collateral inputs are no longer read from TransactionBuilder.collateral (origins: %s)" % sorted(fields_), {})
+                extra_ = sorted(f for f in fields_ if f != "collateral")
+                if bad_ or extra_:
+                    rep.violation("COLL-verbatim", "collateral|%s" % ",".join([H.short(b) for b in bad_] + extra_), "the body's collateral inputs pass through %s%s: the body can list fewer collateral inputs than collateral_return + total_collateral were computed over (the same UTxO as regular and collateral input: the body keeps the return and the total but not the input)" % (", ".join(bad_) or "no adapter", (" and depend on TransactionBuilder.%s" % ", ".join(extra_)) if extra_ else ""), {})
     return rep.finish(
         EXPLANATION,
         ["min_ada_for_output is C07's concern", "BigNum::div_floor(100) is exact floor division (divisor constant non-zero)"],
